@@ -64,7 +64,18 @@ enum Commands {
   Docs,
 }
 
+#[cfg(feature = "verif-hooks")]
+struct VerifFlush;
+#[cfg(feature = "verif-hooks")]
+impl Drop for VerifFlush {
+  fn drop(&mut self) {
+    ast_grep_core::verif::flush_counters();
+  }
+}
+
 pub fn execute_main() -> Result<()> {
+  #[cfg(feature = "verif-hooks")]
+  let _flush = VerifFlush;
   match main_with_args(std::env::args()) {
     Err(error) => exit_with_error(error),
     ok => ok,
